@@ -219,6 +219,13 @@ func c12GenBase(t *rapid.T) c12Case {
 	for i := range spec.Attachments {
 		spec.Attachments[i].Content = trim(spec.Attachments[i].Content)
 	}
+	// headers written by the paths of their own: generic, preformatted (also folded by the caller)
+	if rapid.IntRange(0, 2).Draw(t, "preformatted") == 0 {
+		spec.Headers = append(spec.Headers, gen.HeaderSpec{Name: "X-Pre", Values: []string{rapid.SampledFrom([]string{"one line", "v=1; a=rsa-sha256;\r\n d=verif.example; s=sel;\r\n\tbh=47DEQpj8HBSa+/TImW+5JCeuQeRkm5NMpJWZG3hSuFU="}).Draw(t, "prevalue")}, Preformat: true})
+	}
+	if rapid.IntRange(0, 3).Draw(t, "generic") == 0 {
+		spec.Headers = append(spec.Headers, gen.HeaderSpec{Name: "X-Gen", Values: []string{"a generic header value with enough words in it to be folded over more than one line for sure, yes"}})
+	}
 	c := c12Case{Spec: *spec, SecondRender: rapid.Bool().Draw(t, "second"), Sign: rapid.IntRange(0, 5).Draw(t, "sign") == 0}
 	if c.Sign {
 		c.Spec.FixedDate = false
@@ -321,7 +328,7 @@ func TestC12Prod(t *testing.T) {
 
 func TestC12(t *testing.T) {
 	rec := core.Rec("C12")
-	rec.Rule = "message programs drawn by rapid (0..3 parts, 0..2 embeds, 0..2 attachments, 3 encodings, all file sources, contents <= 90 bytes); " +
+	rec.Rule = "message programs drawn by rapid (0..3 parts, 0..2 embeds, 0..2 attachments, 3 encodings, all file sources, contents <= 90 bytes; optionally a preformatted header, also folded by the caller, and a long generic header); " +
 		"for each program EVERY sink offset k in [0,len(output)) is tried in two sink modes (partial accept / whole-write refusal), on the first or the second render; " +
 		"one program in three instead has one producer failing after 0..len bytes, on every invocation or only on the first or (S/MIME) the second one of the render (custom writer functions, or the caller's io.ReadSeeker behind the library's own AttachReadSeeker/EmbedReadSeeker producer failing in Read or in the rewind; error values ErrInjected, io.EOF, a wrapped io.EOF, io.ErrUnexpectedEOF, io.ErrClosedPipe), or its on-disk attachment files deleted before (or between) renders; TestC12Prod runs batches of up to 40 such producer-fault programs per case; one program in six is S/MIME-signed (ECDSA; offsets up to 64 bytes before the end, because boundary and signature change per render). Non-trivial: every faulty render; distinct by (shape incl. per-leaf encoding and content classes, decile of k for multipart messages, sink mode, render index)."
 	rec.Assumptions = []string{"sinks obey the io.Writer contract (n<len(p) only together with an error) and keep failing after the first failure"}
